@@ -1,4 +1,26 @@
 chk('C01', 'model_checking',
-    'explicit-state search over operator programs (+,-,* with 15 right-operand kinds, 10 reflected kinds, length-mismatch operands, 10 slice forms, copy, transforms) executed on the real electrical_signal/optical_signal objects from 108 leaves (3 layouts x 6 lengths x 3 dtypes x noise) in lock-step with an (S,N) array-pair model: all programs of depth <= 2 (quick) / 3 (thorough) over the 98-op alphabet, all programs of depth <= 4 / 6 over a 10-op alphabet, and the full product of 1600 constructor forms; contract, freshness (np.shares_memory), operand immutability (write-protected buffers, byte compare), total-field and noise-iff oracles on every transition',
-    'values outside the alphabets (ramps / alternating noise) and mixed-layout operands (1-pol with 2-pol) are not explored; for * and the transforms only the contract is stated, so the model adopts the implementation values after checking it',
-    'explicit-state BFS/DFS over operation sequences on the real objects with a lock-step reference model', 'DESIGN.md 5/C01')
+    'explicit-state search over operator programs on the real electrical_signal / optical_signal objects in lock-step with an (S,N) '
+    'array-pair model. Leaves: 663 = 108 base (3 layouts x lengths {1,2,3,5,7,64} x int64/float64/complex128 x noise absent/present) + '
+    '555 extra (8 narrow dtypes bool..complex64; 6 scale/offset variants, 2 VERIF_SEED-selected random fields; noise all-zero / of '
+    'another dtype / in row 0 only; lengths 13, 127). Alphabet: 377 ops = + - * with 71 right-operand kinds (second objects of equal '
+    'length / length 1 / other dtypes / all-zero noise, the object itself, Python and numpy scalars, ndarrays of 10 dtypes, 0-d / strided '
+    '/ 2-row arrays, lists, tuples, strings), 30 reflected kinds, 12 length-mismatch operands (ValueError required), 26 slice forms, 6 '
+    'copy forms, 6 transforms. Wide: all 377 ops on every leaf; depth 2 quick = the 98-op core alphabet as prefix and final op from the '
+    'base leaves + 26 dtype-preserving prefixes x 377 from 24 narrow leaves; thorough adds core x 377 and new-op x core from the base '
+    'leaves, dtype-preserving x 377 from all extra leaves, and depth 3 (core^3) from 36 base leaves only. Deep: de-duplicating DFS over '
+    'two 10-op alphabets, depth <= 4 from 108 + <= 5 from 144 leaves (quick) / <= 6 from 36 + 240 leaves (thorough). Constructors: full '
+    'products of 1600 forms and 2640 dtype combinations + 47 special / must-reject spellings; 9 sweeps repeated under 3 other gv '
+    'histories. quick 16 444 cases, 520 687 states / 1 980 832 transitions; thorough about 416 700 cases, 4.40 M / 43.3 M. Oracles on '
+    'every transition: contract, freshness (np.shares_memory), operand immutability (write-protected buffers, every attribute compared), '
+    '+ -: total field (integers modulo 2^bits, floats 8 eps relative) and noise-iff; slices / copy / constructors exact. Shared '
+    'call-history part: 2 calls x 3 grids',
+    'values outside the alphabets (ramps, alternating noise, the listed scale members, two seeded fields per run) and mixed-layout '
+    'operands (1-pol with 2-pol) are not explored; depth 3 over the core alphabet is thorough-only and from 36 of the 108 base leaves; '
+    'depth 2 from the extra leaves uses dtype-preserving prefixes only; numpy integers as slice indices and ndarrays / numpy scalars on '
+    'the LEFT are outside the property text. For * and the transforms only the contract is stated, so the model adopts the implementation '
+    'values after checking it. Boolean samples are outside the quantified dtypes: a numpy TypeError is accepted and the total-field '
+    'clause is skipped on all-boolean operands; float16 samples beyond the dtype range are not compared. Not asserted (statement silent): '
+    'result dtype, lossy dtype=, copy(n) with n > length, invalid n_pol, invalid transform domain',
+    'explicit-state BFS/DFS over operation sequences on the real objects with a lock-step reference model; bounded-exhaustive constructor '
+    'products with exact differential oracle',
+    'DESIGN.md 5/C01')
